@@ -6,6 +6,7 @@ import (
 	"testing/synctest"
 	"time"
 
+	"github.com/celestiaorg/go-header/store"
 	"pgregory.net/rapid"
 
 	"verif/harness/evid"
@@ -22,9 +23,10 @@ type StoreOp struct {
 }
 
 type C04Scenario struct {
-	Cfg  StoreCfg  `json:"cfg"`
-	Base uint64    `json:"base"`
-	Ops  []StoreOp `json:"ops"`
+	Cfg      StoreCfg  `json:"cfg"`
+	Base     uint64    `json:"base"`
+	Ops      []StoreOp `json:"ops"`
+	Parallel bool      `json:"parallel,omitempty"` // parallel-delete threshold lowered to 2
 }
 
 const storeChainLen = 420
@@ -44,7 +46,8 @@ func genStoreOp(t *rapid.T, kinds []string) StoreOp {
 }
 
 func genC04(t *rapid.T) C04Scenario {
-	s := C04Scenario{Cfg: genStoreCfg(t), Base: rapid.SampledFrom([]uint64{1, 1, 2, 30}).Draw(t, "base")}
+	s := C04Scenario{Cfg: genStoreCfg(t), Base: rapid.SampledFrom([]uint64{1, 1, 2, 30}).Draw(t, "base"),
+		Parallel: rapid.IntRange(0, 3).Draw(t, "parallel") == 0}
 	n := rapid.IntRange(5, 40).Draw(t, "nops")
 	for i := 0; i < n; i++ {
 		s.Ops = append(s.Ops, genStoreOp(t, c04OpKinds))
@@ -170,6 +173,11 @@ func runC04(t *testing.T, s C04Scenario) (res Result) {
 				cn()
 			}
 		}()
+		if s.Parallel {
+			old := store.VerifSetDeleteParallelThreshold(2)
+			defer store.VerifSetDeleteParallelThreshold(old)
+			res.label("parallel_delete_path")
+		}
 
 		var gapMade, gapFilled, restartUnflushed, sinceSync bool
 		fail := func(f string, a ...any) bool { res.failf(f, a...); return true }
